@@ -50,7 +50,7 @@ def gen_case(rng: Rng, i: int, tier: str):
     r = rng.sub("k")
     if r.chance(0.06):
         fx, pw = r.pick(hist.FIXTURE_BASES + [("github_14.7z", None), ("github_14_multi.7z", None), ("root_path_arcname.7z", None), ("symlink_2.7z", None)])
-        return {"fixture": fx, "open": r.pick(["stream", "path"]), "read": {"block": r.pick([4096, 32768, 1048576]), "chunk": r.pick([4096, 128000000])}}
+        return {"fixture": fx, "open": r.pick(["stream", "path", "anon"]), "read": {"block": r.pick([4096, 32768, 1048576]), "chunk": r.pick([4096, 128000000])}}
     n = r.wpick([(1, 0), (2, 1), (3, 2), (3, 4), (2, 6), (1, 9)])
     members = []
     names = []
@@ -110,7 +110,16 @@ def gen_case(rng: Rng, i: int, tier: str):
               "omit_nums": r.chance(0.5), "dummy": r.pick([0, 0, 2, 3, 5, 18]), "dummy_tail": r.pick([0, 0, 4]), "emptyfile_vector_always": r.chance(0.2),
               "names_first": r.chance(0.8), "header": header, "password": password, "iv_seed": r.randrange(256), "no_substreams": r.chance(0.2),
               "header_crc": r.chance(0.8)}
-    return {"members": members, "layout": layout, "open": r.pick(["stream", "path"]),
+    re_ = rng.sub("emptyfolders")
+    if re_.chance(0.15):
+        # folders that hold no stream at all (NumUnpackStream == 0; py7zr writes one per session that adds only
+        # directories), anywhere, also several in a row
+        pos = re_.randint(0, len(folders))
+        for _ in range(re_.randint(1, 3)):
+            folders.insert(pos, {"members": [], "chain": [dict(f) for f in re_.pick([[{"id": "COPY"}], [{"id": "LZMA2"}], [{"id": "LZMA"}]])]})
+            if re_.chance(0.4):
+                pos = re_.randint(0, len(folders))
+    return {"members": members, "layout": layout, "open": r.pick(["stream", "path", "anon"]),
             "read": {"block": r.pick([16, 4096, 32768, 1048576]), "chunk": r.pick([17, 4096, 128000000])}}
 
 
@@ -210,7 +219,7 @@ def run_case(case):
     try:
         with StepCounter(budget) as sc:
             with Seams(fs=fs, blocksize=case["read"]["block"], memlimit=case["read"]["chunk"], inline_threads=True):
-                target = rsess.READ_PATH if case["open"] == "path" else SimRaw(fs.get(rsess.READ_PATH), readable=True)
+                target = rsess.READ_PATH if case["open"] == "path" else SimRaw(fs.get(rsess.READ_PATH), readable=True, anonymous=case["open"] == "anon")
                 try:
                     z = py7zr.SevenZipFile(target, "r", password=password)
                 except Exception as e:
